@@ -86,6 +86,19 @@ Fixpoint next_not_eq_b (l : list Z) : bool :=
   | c :: t => if is_ws c then next_not_eq_b t else negb (c =? 61)
   end.
 
+Fixpoint no_pi_end_b (l : list Z) : bool :=
+  match l with
+  | c :: ((c1 :: _) as t) => negb ((c =? 63) && (c1 =? 62)) && no_pi_end_b t
+  | _ => true
+  end.
+
+Lemma no_pi_end_b_sound l : no_pi_end_b l = true -> no_pi_end l.
+Proof.
+  induction l as [|c t IH]; [intros _; exact I|]. destruct t as [|c1 t']; [intros _; exact I|].
+  cbn [no_pi_end_b no_pi_end]. intros H. apply andb_true_iff in H. destruct H as (H1 & H2).
+  split; [lia|apply IH; exact H2].
+Qed.
+
 Definition nil_b (l : list Z) : bool := match l with [] => true | _ => false end.
 
 Definition gattr_okb (pi : bool) (a : gattr) (rest : list Z) : bool :=
@@ -100,7 +113,12 @@ Definition gattr_okb (pi : bool) (a : gattr) (rest : list Z) : bool :=
   | VQuo w1 w2 q x =>
       all_ws_b w1 && all_ws_b w2 && (negb (nil_b (g_name a)) || nil_b w1) &&
       name_run_b pi true (g_name a) (getz (w1 ++ [61]) 0) &&
-      ((q =? 34) || (q =? 39)) && forallb (fun c => negb (c =? q) && negb (c =? 0)) x
+      ((q =? 34) || (q =? 39)) && forallb (fun c => negb (c =? q) && negb (c =? 0)) x && (negb pi || no_pi_end_b x)
+  | VQuoCut w1 w2 q x =>
+      all_ws_b w1 && all_ws_b w2 && (negb (nil_b (g_name a)) || nil_b w1) &&
+      name_run_b pi true (g_name a) (getz (w1 ++ [61]) 0) &&
+      ((q =? 34) || (q =? 39)) && forallb (fun c => negb (c =? q) && negb (c =? 0)) x && no_pi_end_b x &&
+      pi && match rest with c :: c1 :: _ => (c =? 63) && (c1 =? 62) | _ => false end
   end.
 
 Fixpoint gattrs_okb (pi : bool) (l : list gattr) (tail : list Z) : bool :=
@@ -124,7 +142,7 @@ Definition item_okb (it : item) : bool :=
   | IComment b => nz_b b && no_occ_b pat_comment_end b
   | ICdata b => nz_b b && no_occ_b pat_cdata_end b
   | IDoctype ps => forallb dpiece_okb ps
-  | IPI t attrs ws => is_name_b false t && forallb attr_okb attrs && all_ws_b ws
+  | IPI t attrs ws => is_name_b false t && forallb attr_okb attrs && all_ws_b ws && forallb (fun a => no_pi_end_b (a_val a)) attrs
   | IStart n attrs ws void => is_name_b false n && negb (getz n 0 =? 33) && forallb attr_okb attrs && all_ws_b ws
   | IEnd n ws => is_name_b false n && all_ws_b ws
   | ITag pi n gs ws k => itag_okb pi n gs ws k
@@ -220,7 +238,7 @@ Proof. intros H ->. cbn in H. destruct w1; [reflexivity|discriminate]. Qed.
 Lemma gattr_okb_sound pi a rest : gattr_okb pi a rest = true -> gattr_ok pi a rest.
 Proof.
   unfold gattr_okb, gattr_ok. intros H. apply andb_true_iff in H. destruct H as (Hl & Hv).
-  split; [apply all_ws_b_sound; exact Hl|]. destruct (g_val a) as [|w1 w2 x|w1 w2 q x].
+  split; [apply all_ws_b_sound; exact Hl|]. destruct (g_val a) as [|w1 w2 x|w1 w2 q x|w1 w2 q x].
   - repeat (apply andb_true_iff in Hv; destruct Hv as (Hv & ?)).
     split; [apply nil_b_false; assumption|]. split; [apply name_run_b_sound; assumption|].
     split; [apply name_end_b_sound; assumption|apply next_not_eq_b_sound; assumption].
@@ -232,7 +250,18 @@ Proof.
   - repeat (apply andb_true_iff in Hv; destruct Hv as (Hv & ?)).
     split; [apply all_ws_b_sound; assumption|]. split; [apply all_ws_b_sound; assumption|].
     split; [apply nil_imp; assumption|]. split; [apply name_run_b_sound; assumption|].
-    split; [lia|]. match goal with H : forallb _ x = true |- _ => revert H end. apply forallb_Forall. intros c Hc. lia.
+    split; [lia|]. split.
+    + match goal with H : forallb _ x = true |- _ => revert H end. apply forallb_Forall. intros c Hc. lia.
+    + intros ->. apply no_pi_end_b_sound. match goal with H : negb true || _ = true |- _ => exact H end.
+  - repeat (apply andb_true_iff in Hv; destruct Hv as (Hv & ?)).
+    split; [apply all_ws_b_sound; assumption|]. split; [apply all_ws_b_sound; assumption|].
+    split; [apply nil_imp; assumption|]. split; [apply name_run_b_sound; assumption|].
+    split; [lia|]. split.
+    { match goal with H : forallb _ x = true |- _ => revert H end. apply forallb_Forall. intros c Hc. lia. }
+    split; [apply no_pi_end_b_sound; assumption|]. split; [assumption|].
+    destruct rest as [|c [|c1 t]]; try discriminate. exists t.
+    match goal with H : (c =? 63) && (c1 =? 62) = true |- _ => apply andb_true_iff in H; destruct H end.
+    f_equal; [lia|f_equal; lia].
 Qed.
 
 Lemma gattrs_okb_sound pi l tail : gattrs_okb pi l tail = true -> gattrs_ok pi l tail.
@@ -262,8 +291,10 @@ Proof.
   - split; [apply nz_b_sound; assumption|apply no_occ_b_sound; assumption].
   - split; [apply nz_b_sound; assumption|apply no_occ_b_sound; assumption].
   - revert H. apply forallb_Forall. apply dpiece_okb_sound.
-  - split; [apply is_name_b_sound; assumption|]. split; [|apply all_ws_b_sound; assumption].
-    match goal with H : forallb attr_okb attrs = true |- _ => revert H end. apply forallb_Forall. apply attr_okb_sound.
+  - split; [apply is_name_b_sound; assumption|]. split; [|split; [apply all_ws_b_sound; assumption|]].
+    + match goal with H : forallb attr_okb attrs = true |- _ => revert H end. apply forallb_Forall. apply attr_okb_sound.
+    + match goal with H : forallb (fun a => no_pi_end_b (a_val a)) attrs = true |- _ => revert H end.
+      apply forallb_Forall. intros a. apply no_pi_end_b_sound.
   - split; [apply is_name_b_sound; assumption|]. split; [assumption|]. split; [|apply all_ws_b_sound; assumption].
     match goal with H : forallb attr_okb attrs = true |- _ => revert H end. apply forallb_Forall. apply attr_okb_sound.
   - split; [apply is_name_b_sound; assumption|apply all_ws_b_sound; assumption].
@@ -350,6 +381,28 @@ Definition ex_php_items : list item :=
 
 Example ex_php_items_ok : doc_ok ex_php_items.
 Proof. apply doc_okb_sound. vm_compute. reflexivity. Qed.
+
+(* <?p a=QUOTE b?><a/> : the quoted value is cut by the instruction's ?> (fix 5eea3cf of /repo) *)
+Definition ex_pi_quote : list Z := [60; 63; 112; 32; 97; 61; 34; 98; 63; 62; 60; 97; 47; 62].
+Definition ex_pi_quote_items : list item :=
+  [ ITag true [112] [mkG [32] [97] (VQuoCut [] [] 34 [98])] [] TStartTagClosePI; IStart [97] [] [] true ].
+
+Example ex_pi_quote_items_ok : doc_ok ex_pi_quote_items.
+Proof. apply doc_okb_sound. vm_compute. reflexivity. Qed.
+
+Theorem xml_pi_quote_exact_proof :
+  render_doc ex_pi_quote_items = ex_pi_quote /\
+  lexes (xml_init ex_pi_quote) (expect_doc ex_pi_quote_items) 1 /\
+  expect_doc ex_pi_quote_items =
+    [ (TStartTagPI, Some [60; 63; 112], Some [112], None);
+      (TAttribute, Some [32; 97; 61; 34; 98], Some [97], Some [34; 98]);
+      (TStartTagClosePI, Some [63; 62], None, None);
+      (TStartTag, Some [60; 97], Some [97], None); (TStartTagCloseVoid, Some [47; 62], None, None) ].
+Proof.
+  assert (E : render_doc ex_pi_quote_items = ex_pi_quote) by (vm_compute; reflexivity).
+  split; [exact E|]. split; [|vm_compute; reflexivity]. rewrite <- E.
+  apply xml_wellformed_tokens_proof. apply ex_pi_quote_items_ok.
+Qed.
 
 Theorem xml_pi_content_exact_proof :
   render_doc ex_pi_gt_items = ex_pi_gt /\
